@@ -56,8 +56,13 @@ func cell(i int) (ref.Suite, bool, bool) {
 }
 
 func c01One(k *core.Case, m *abs.Msg, ci int, mode int) {
+	s, _, _ := cell(ci)
+	c01OneWith(k, m, ci, mode, libsa.RandomRaw(k.R, s), nil)
+}
+
+// c01OneWith: src (if not nil) makes the random source of the protect call (searched crypto values)
+func c01OneWith(k *core.Case, m *abs.Msg, ci int, mode int, raw libsa.Raw, src func() io.Reader) {
 	s, init, pre := cell(ci)
-	raw := libsa.RandomRaw(k.R, s)
 	witness := func() M {
 		return M{"msg": msgJSON(m), "keys": raw.JSON(), "sender_initiator": init, "preparsed_header": pre, "rand": randModes[mode]}
 	}
@@ -71,7 +76,11 @@ func c01One(k *core.Case, m *abs.Msg, ci int, mode int) {
 	var wire []byte
 	var err error
 	var p *core.Panic
-	mon.WithRand(randSrc(mode, k.R), func() { wire, err, p = libProtect(m, ks, init) })
+	rs := randSrc(mode, k.R)
+	if src != nil {
+		rs = src()
+	}
+	mon.WithRand(rs, func() { wire, err, p = libProtect(m, ks, init) })
 	if p != nil {
 		k.Violate("panic", "protect: "+p.Sig(), "EncodeEncrypt panicked", panicData(p, witness()))
 		return
@@ -245,7 +254,18 @@ func c01(c *core.Ctx) {
 		c01One(k, m, k.Index%36, k.R.Intn(4))
 	})
 	c.Family("sessions", c.N(36*30, 36*20000), c01Session)
-	c.Require("sessions", "msg_object_completed-after-plain-encode", "msg_object_header-parsed-from-a-protected-datagram", "msg_object_object-decoded-from-another-datagram", "msg_object_NewMessage")
+	// values the cryptography itself produces only now and then: checksums / ciphertexts / IVs that begin or end with
+	// 0x00 or 0xFF (found by varying the Message ID under a fixed random stream), then the ordinary round trip
+	c.Family("searched-crypto-values", c.N(36*nSpecial, 36*nSpecial*200), func(k *core.Case) {
+		ci := k.Index % 36
+		s, init, _ := cell(ci)
+		raw := libsa.RandomRaw(k.R, s)
+		m := gen.Msg(k.R, gen.Opt{Protected: true, MaxPayloads: 2, AllowEmpty: true})
+		if src := searchSpecial(k, m, raw, init, (k.Index/36)%nSpecial); src != nil {
+			c01OneWith(k, m, ci, 0, raw, src)
+		}
+	})
+	c.Require("searched_crypto_value_found", "sessions", "msg_object_completed-after-plain-encode", "msg_object_header-parsed-from-a-protected-datagram", "msg_object_object-decoded-from-another-datagram", "msg_object_NewMessage")
 	c.Family("nokey", c.N(8000, 2000000), func(k *core.Case) {
 		m := gen.Msg(k.R, gen.Opt{AllowBig: k.Index%9 == 0, AllowEmpty: true})
 		if k.Index%4 == 1 && len(m.Payloads) > 0 {
@@ -254,6 +274,74 @@ func c01(c *core.Ctx) {
 		}
 		c01NoKey(k, m)
 	})
+}
+
+// searchSpecial varies m's Message ID until its protected form (under a fixed random stream, which it returns as a
+// factory so that the real call reproduces it) has a crypto-produced value of the wanted kind.
+const nSpecial = 8
+
+func specialCond(cond int, w []byte, icv int) bool {
+	if len(w) < 64+icv {
+		return false
+	}
+	mac := w[len(w)-icv:]
+	ct := w[48 : len(w)-icv]
+	switch cond {
+	case 0:
+		return mac[0] == 0
+	case 1:
+		return mac[icv-1] == 0
+	case 2:
+		return mac[0] == 0xff
+	case 3:
+		return ct[0] == 0
+	case 4:
+		return ct[len(ct)-1] == 0
+	case 5:
+		return w[32] == 0 // IV
+	case 6:
+		return mac[0] == 0 && mac[1] == 0 || ct[len(ct)-1] == 0 && ct[len(ct)-2] == 0
+	default:
+		return bytes.Contains(w[28:], []byte{0, 0, 0})
+	}
+}
+
+func searchSpecial(k *core.Case, m *abs.Msg, raw libsa.Raw, init bool, cond int) func() io.Reader {
+	tries := 3000
+	if cond == 6 {
+		tries = 120000
+		if !k.Thorough() && k.Index%4 != 0 {
+			tries = 3000
+		}
+	}
+	for t := 0; t < tries; t++ {
+		m.MsgID = k.R.U32()
+		seed := k.R.U64() // IV and padding change with it (and with them the ciphertext)
+		var w []byte
+		var err error
+		var p *core.Panic
+		ks, kerr := libsa.NewKey(raw)
+		if kerr != nil {
+			return nil
+		}
+		lm, berr := bridge.BuildMsg(m)
+		if berr != nil {
+			return nil
+		}
+		mon.WithRand(core.NewRng(seed), func() {
+			p = core.Try(func() { w, err = ike.EncodeEncrypt(lm, ks, role(init)) })
+		})
+		if err != nil || p != nil {
+			return nil // judged by the ordinary families
+		}
+		if specialCond(cond, w, raw.Suite.ICVLen()) {
+			k.Count("searched_crypto_value_found", 1)
+			k.Count(fmt.Sprintf("searched_crypto_value_kind_%d", cond), 1)
+			return func() io.Reader { return core.NewRng(seed) }
+		}
+	}
+	k.Count("searched_crypto_value_not_found", 1)
+	return nil
 }
 
 // ---------------------------------------------------------------------------
@@ -302,8 +390,12 @@ func senderTraceSpec(tr []mon.Event, init bool, out []byte, icv int) string {
 }
 
 func c06Forward(k *core.Case, m *abs.Msg, ci int) {
+	s, _, _ := cell(ci)
+	c06ForwardWith(k, m, ci, libsa.RandomRaw(k.R, s), nil)
+}
+
+func c06ForwardWith(k *core.Case, m *abs.Msg, ci int, raw libsa.Raw, src func() io.Reader) {
 	s, init, _ := cell(ci)
-	raw := libsa.RandomRaw(k.R, s)
 	ks, err := libsa.NewKey(raw)
 	if err != nil {
 		k.Violate("setup", "NewKey failed", err.Error(), nil)
@@ -311,7 +403,13 @@ func c06Forward(k *core.Case, m *abs.Msg, ci int) {
 	}
 	tr := libsa.Spy(ks)
 	k.Eval(1)
-	wire, err, p := libProtect(m, ks, init)
+	var wire []byte
+	var p *core.Panic
+	if src != nil {
+		mon.WithRand(src(), func() { wire, err, p = libProtect(m, ks, init) })
+	} else {
+		wire, err, p = libProtect(m, ks, init)
+	}
 	w := M{"msg": msgJSON(m), "keys": raw.JSON(), "sender_initiator": init}
 	if p != nil {
 		k.Violate("panic", "protect: "+p.Sig(), "EncodeEncrypt panicked", panicData(p, w))
@@ -454,6 +552,15 @@ func c06(c *core.Ctx) {
 		c06Backward(k, gen.Msg(k.R, gen.Opt{Protected: true, AllowEmpty: true, MaxPayloads: 4}), k.Index%36)
 	})
 	c.Family("bwd-empty", 36, func(k *core.Case) { c06Backward(k, gen.Header(k.R), k.Index%36) })
+	c.Family("fwd-searched-crypto-values", c.N(18*nSpecial, 18*nSpecial*200), func(k *core.Case) {
+		ci := k.Index % 18 * 2
+		s, init, _ := cell(ci)
+		raw := libsa.RandomRaw(k.R, s)
+		m := gen.Msg(k.R, gen.Opt{Protected: true, MaxPayloads: 2, AllowEmpty: true})
+		if src := searchSpecial(k, m, raw, init, (k.Index/18)%nSpecial); src != nil {
+			c06ForwardWith(k, m, ci, raw, src)
+		}
+	})
 	// around the 16-bit limit of the SK payload: whatever EncodeEncrypt returns WITHOUT an error must be a well-formed
 	// protected message (lengths final, accepted by the independent peer); beyond the limit an error is the only other outcome
 	c.Family("fwd-at-limit", 18*48, func(k *core.Case) {
@@ -493,7 +600,7 @@ func c06(c *core.Ctx) {
 		k.Count("at_limit_protected_ok", 1)
 		k.Distinct(fmt.Sprintf("limit|ok|%s|%d", s.Name(), inner/16))
 	})
-	c.Require("payload_list_sent_in_three_messages", "at_limit_refused_with_error", "at_limit_protected_ok", "msg_object_completed-after-plain-encode", "msg_object_header-parsed-from-a-protected-datagram", "msg_object_object-decoded-from-another-datagram", "msg_object_NewMessage")
+	c.Require("searched_crypto_value_found", "payload_list_sent_in_three_messages", "at_limit_refused_with_error", "at_limit_protected_ok", "msg_object_completed-after-plain-encode", "msg_object_header-parsed-from-a-protected-datagram", "msg_object_object-decoded-from-another-datagram", "msg_object_NewMessage")
 }
 
 var _ = message.TypeSK
